@@ -200,7 +200,13 @@ func mutate(rng *rand.Rand, s string, alpha string) string {
 		return s
 	}
 	b := []byte(s)
-	switch rng.IntN(3) {
+	switch rng.IntN(4) {
+	case 3:
+		// flip bit 5 of one byte: what an `|0x20` / `&^0x20` style case fold confuses
+		// ('.' <-> 0x0e, '-' <-> '\r', '6' <-> 0x16, 'a' <-> 'A')
+		if len(b) > 0 {
+			b[rng.IntN(len(b))] ^= 0x20
+		}
 	case 0:
 		if len(b) > 0 {
 			b[rng.IntN(len(b))] = alpha[rng.IntN(len(alpha))]
@@ -249,6 +255,27 @@ func genIPPortText(rng *rand.Rand) string {
 		}
 	}
 	return mutate(rng, s, ipAlpha)
+}
+
+// genLongIDN builds a dotted name of non-ASCII labels: many short labels grow a lot under
+// punycode (raw < 253 < ascii), a few long ones shrink relative to their UTF-8 form
+// (ascii < 253 < raw).
+func genLongIDN(rng *rand.Rand) string {
+	letter := pick(rng, "я", "é", "日", "ü")
+	var ls []string
+	if rng.IntN(2) == 0 {
+		n := 30 + rng.IntN(20)
+		for i := 0; i < n; i++ {
+			ls = append(ls, strings.Repeat(letter, 1+rng.IntN(2)))
+		}
+	} else {
+		n := 6 + rng.IntN(3)
+		for i := 0; i < n; i++ {
+			ls = append(ls, strings.Repeat(letter, 18+rng.IntN(4)))
+		}
+	}
+	ls = append(ls, pick(rng, "org", "рф", "x1"))
+	return strings.Join(ls, ".")
 }
 
 const enumAlpha = "019afg:.%[]"
@@ -306,6 +333,12 @@ func genC02(rng *rand.Rand, tier string) (cases []string) {
 	}
 	// hostname halves of the property (model ops live in the C03 driver)
 	for i := 0; i < n/6; i++ {
+		if rng.IntN(8) == 0 {
+			// IDN names whose raw and punycode lengths fall on opposite sides of 253
+			s := genLongIDN(rng)
+			cases = append(cases, "C03.ishost "+hx([]byte(s))+" "+toASCIIField(s))
+			continue
+		}
 		if rng.IntN(3) == 0 {
 			cases = append(cases, "C03.islhost "+hx([]byte(genNameLabel(rng))))
 		} else {
